@@ -73,7 +73,7 @@ def run(ctx):
             }
             for k, rx in want.items():
                 ctx.ob("C01.wire.field-identity", f.key, "Field.%s" % k, k in m and bool(re.search(rx, m[k])), "Field.%s <= %s" % (k, m.get(k, "?")[:200]))
-            cl = {c.key.rsplit("::", 1)[-1]: [e for _, e in ctx.ret_exprs(c)] for c in ctx.closures_of(f)}
+            cl = {c.key.rsplit("::", 1)[-1]: ctx.ret_values(c) for c in ctx.closures_of(f)}
             ctx.ob("C01.wire.name-fallback-is-ident", f.key, "closure#0", cl.get("{closure#0}") == ["alloc::borrow::Cow::Owned{<T as alloc::string::ToString>::to_string(self.ident)}"], str(cl.get("{closure#0}")))
             c2 = [c for c in ctx.closures_of(f) if c.key.endswith("{closure#2}")]
             if c2:
@@ -129,7 +129,7 @@ def run(ctx):
                 ctx.requires("C01.G.route-error-last", f, tk.blk, "unknown-field error", [r"Iterator>::any\(.*\)=False", r"self\.allow_unknown_fields=False"])
         ctx.floor("C01.G.route", "routing templates in core_loop", n, 3)
         # the `any` closure tests the flatten flag
-        anyc = [c for c in ctx.closures_of(f) if [e for _, e in ctx.ret_exprs(c)] == ["a2.flatten"]]
+        anyc = [c for c in ctx.closures_of(f) if ctx.ret_values(c) == ["a2.flatten"]]
         ctx.ob("C01.G.route-any-is-flatten", f.key, "any(|f| f.flatten)", len(anyc) == 1, "closures returning f.flatten: %d" % len(anyc))
         txt = " ".join(T.render(T.root_streams()[-1])) if T.root_streams() else ""
         ok = bool(re.search(r"let __name = :: darling :: util :: path_to_string \( __inner \. path \( \) \) ; match __name \. as_str \( \) \{ .* __other => \{", txt))
